@@ -53,6 +53,10 @@ func checkC12(c *Ctx, r *Report) {
 	checkDMTables(c, r)
 	// the Code 128 writer's value computation indexes its contents by position: folded over contents and forced code sets
 	checkCode128RoundTrip(c, r)
+	// the Codabar writer sizes its module slice before it fills it: folded as a whole function (also C03)
+	checkCodabarWriterWhole(c, r)
+	// every renderer fills module blocks with SetRegion: its word arithmetic at the right and bottom edge (also C16, C14)
+	checkWholeOps(c, r)
 	// "never smaller than the symbol": the margin the renderers add is not negative
 	checkMarginNonNegative(c, r)
 	checkNumericOnly(c, r) // the table lookups contents[i] - '0' of ITF / UPC / EAN rest on it
